@@ -128,6 +128,7 @@ let monitors : ((string * string) * (val0 -> val0 -> val0)) list = [
   (("C08", "sigset"), mon_C08_sigset);
   (("C08", "hub"), mon_C08_hub);
   (("C08", "sigprune"), mon_C08_prune);
+  (("C09", "sigprune"), mon_C09_prune);
   (("C08", "reg"), mon_C08_reg);
   (("C07", "sig"), mon_C07_sig);
   (("C14", "claim"), mon_C14);
